@@ -3,6 +3,10 @@ CONSTANTS
     Size = 2
     MaxRefresh = 1
     ItemGiveBackUsesItemTag = TRUE
+    AtomicRefresh = TRUE
+    MaxReset = 1
+    AtomicReset = FALSE
 SPECIFICATION Spec
+VIEW view
 INVARIANTS TypeOK Bounded NoStaleHandout NoStaleInPool
 CHECK_DEADLOCK FALSE
